@@ -28,6 +28,7 @@ func init() {
 			{"C05/ntlm-gate", "NTLM middleware: next only over Authenticated with no challenge pending; session = connection address; name = backend's", c05NtlmGate},
 			{"C05/pam-gate", "auth service: Authenticated only after PAM start, authenticate and account management succeeded for the submitted user/password", c05PamGate},
 			{"C05/challenge", "no-Authorization route unconditional; per-mechanism challenges registered with their routes; refusals answer 401 + WWW-Authenticate", c05Challenge},
+			{"C05/ntlm-accept", "the NTLM verifier reports Authenticated only over proof of a non-empty configured password (C14's accept-site rule, as it decides who reaches this endpoint)", func(c *Ctx) { c14AcceptSiteAs(c, "C05/ntlm-accept") }},
 			{"C05/spnego", "SPNEGO transposition copies the library's verdict and name", c05Spnego},
 			{"C05/ntlm-verifier", "the NTLM verifier keeps a server context only while a challenge is outstanding (C14's context rule, as it gates this endpoint)", func(c *Ctx) { c14ContextScopeAs(c, "C05/ntlm-verifier") }},
 		},
@@ -473,8 +474,9 @@ func retSpilled(r *ssa.Return, i int) ssa.Value {
 	return u
 }
 
-func c05NtlmGate(c *Ctx) {
-	rule := "C05/ntlm-gate"
+func c05NtlmGate(c *Ctx) { c05NtlmGateAs(c, "C05/ntlm-gate") }
+
+func c05NtlmGateAs(c *Ctx, rule string) {
 	outer := c.Fn("cmd/rdpgw/web", "NTLMAuthHandler.NTLMAuth")
 	if len(outer.AnonFuncs) != 1 {
 		c.Missing("NTLMAuth closure")
